@@ -2,6 +2,8 @@ package cisco
 
 import (
 	"fmt"
+	"maps"
+	"slices"
 	"sort"
 	"strings"
 
@@ -22,9 +24,13 @@ func (a *Config) MergeSpoc(d deviceconf.Config) deviceconf.Config {
 		}
 	}
 	isReferenced = make(map[*cmd]bool)
-	for prefix, bMap := range b.lookup {
+	// Process commands in fixed order. Result depends on order, if
+	// multiple simple objects with identical definition are merged.
+	for _, prefix := range slices.Sorted(maps.Keys(b.lookup)) {
+		bMap := b.lookup[prefix]
 		aMap := lookup[prefix]
-		for name, bl := range bMap {
+		for _, name := range slices.Sorted(maps.Keys(bMap)) {
+			bl := bMap[name]
 			switch prefix {
 			case "tunnel-group-map", "webvpn":
 				errlog.Abort("Command '%s' not supported in raw file", prefix)
